@@ -100,6 +100,8 @@ fn client_err_text(e: &ClockBoundError) -> String {
         ClockBoundErrorKind::SegmentNotInitialized => "notinit",
         ClockBoundErrorKind::SegmentMalformed => "malformed",
         ClockBoundErrorKind::CausalityBreach => "causality",
+        #[allow(unreachable_patterns)]
+        _ => "other",
     };
     let d = if e.detail.is_empty() { "-".to_string() } else { e.detail.replace(' ', "_") };
     format!("err {} {} {}", k, e.errno.0, d)
